@@ -22,8 +22,6 @@ Clause labels -> sentence of the property
   enabling_is_error       "a late or aliased enabling statement and unknown __gin__ features are errors"
   config_str_resolves     "The config string re-aliases colliding import names so that every selector
                           it emits resolves to the same object"
-To keep one recorded defect from exhausting the harness' cap of 20 violations, at most 1 failure
-per signature are reported per process (a replay of a single case always reports).
 """
 import ast
 import atexit
@@ -293,9 +291,6 @@ def _read_config_str(text):
   return out
 
 
-_REPORTED = {}
-
-
 def _flags(model):
   """Facts about the case used to attribute a mismatch to a sentence and to name its kind."""
   multi = {i for i, sp in model.spell.items() if len({(f, s) for f, r, s in sp}) > 1}
@@ -331,15 +326,11 @@ def check(case):
     fails = _check(case)
   finally:
     logging.disable(logging.NOTSET)
-  out = []
   for f in fails:
-    _REPORTED[f['signature']] = _REPORTED.get(f['signature'], 0) + 1
-    if _REPORTED[f['signature']] <= 1:
-      for k in ('expected', 'observed', 'text'):   # the temp dir is the only run-specific text
-        if isinstance(f.get(k), str):
-          f[k] = f[k].replace(_ROOT[0], '<tree>')
-      out.append(f)
-  return out[:4]
+    for k in ('expected', 'observed', 'text'):   # the temp dir is the only run-specific text
+      if isinstance(f.get(k), str):
+        f[k] = f[k].replace(_ROOT[0], '<tree>')
+  return fails[:6]
 
 
 def _check(case):
